@@ -313,8 +313,9 @@ def _gen_raw(rng, n_ops, kinds, n_rows, share, force_kind):
                 c += [cond, operand()]
             k = add({'k': kind, 'c': c})
         elif kind == 'linUtil':
-            m = rng.randint(1, 3)
-            bs = [rng.choice(list(beta_ids.values())) for _ in range(m)]
+            m = rng.randint(1, min(3, len(beta_ids)))
+            # distinct parameters: the engine loses a term when one parameter multiplies two variables (finding F-E5)
+            bs = rng.sample(list(beta_ids.values()), m)
             vs = [var_ids[rng.choice(num_cols)] for _ in range(m)]
             k = add({'k': kind, 'c': bs + vs})
         elif kind == 'logLogit':
